@@ -26,7 +26,9 @@ HOST_PATS = ["*.example.org", "host?.net", "*", "a.example.org", "*.net", "host?
              "*/*", "[a-b].example.org*", "HOST*", "*[!.]"]
 IPS = ["10.1.2.3", "10.1.3.3", "10.2.0.1", "11.0.0.1", "10.1.2.130", "10.1.2.2", "2001:db8::1", "2001:db8:1::5", "2001:db9::1", "2001:db8:8000::1", "2001:db8:1::6", "2001:dbf::9"]
 IDENTS = ["joe", "~joe", "jae", None, "~x", "root"]
-HOSTS = ["a.example.org", "host1.net", "host22.net", None, "b.example.org.", "HOST1.NET", ".example.org", "x/y.example.org", "c.example.org"]
+HOSTS = ["a.example.org", "host1.net", "host22.net", None, "b.example.org.", "HOST1.NET", ".example.org", "x/y.example.org", "c.example.org",
+         # names of exactly 63 and 62 characters (the field holds 63): the end of the name is what `*.example.org` and `*.net` look at
+         "a" * 51 + ".example.org", "b" * 50 + ".example.org", "h" * 59 + ".net"]
 ACCOUNTS = ["alice:123", "bob", "albert", None, "alice", "Bob", "alice:1:2", "a*", "alic[e", "clice:9"]
 SERVICES = [("login.svc", "login"), ("Drone.Net", "dronecheck"), ("combo.svc", "combined")]
 
